@@ -173,7 +173,15 @@ def handlers : List (String × (List Sexp → String)) := [
       let [.atom name, id, .list needed, .list frames] := a | none
       let fs ← frames.mapM frame?
       let needed ← needed.mapM Sexp.str?
-      pure (toString (Sexp.ofBool (bodyHidesName name (← id.nat?) needed fs))))
+      pure (toString (Sexp.ofBool (bodyHidesName name (← id.nat?) needed fs)))),
+  -- class of C14-stale-dynamic-read: writes are (name inBody nonlocalDecl)
+  ("c14.class.stale", fun a => run do
+      let [.list needed, .list ws] := a | none
+      let needed ← needed.mapM Sexp.str?
+      let ws ← ws.mapM fun w => match w with
+        | .list [.atom n, b, d] => do pure (⟨n, 0, ← b.bool?, ← d.bool?⟩ : Write)
+        | _ => none
+      pure (toString (Sexp.ofBool (staleDynamicRead needed ws))))
 ]
 
 end Malt.Drv.C14
